@@ -1,7 +1,7 @@
 PROP = dict(
     id="C07",
     lean_modules=["TongoProofs.C07"],
-    gen=[],
+    gen=["BocHeader"],
     spec_ops=(),
     rule="byte strings: every truncation and every single-byte substitution (256 values on header positions, 8 bit "
          "flips elsewhere) of 24 (thorough: 60) seed bags of cells (Go writer output under all option sets, reference "
